@@ -215,7 +215,7 @@ def specAll : List Op → Ideal → List (Outcome Out) × Ideal
 
 /-- well-formedness of an operation: the domain over which `ops_sequence` is stated (all decidable) -/
 def WF : Op → Prop
-  | .writeInt v _ => -(2 : Int) ^ 63 ≤ v ∧ v < (2 : Int) ^ 63          -- an int64
+  | .writeInt v n => -(2 : Int) ^ 63 ≤ v ∧ v < (2 : Int) ^ 63 ∧ n ≤ 64  -- an int64, width 0..64
   | .writeUint v _ => v < 2 ^ 64                                        -- a uint64
   | .writeLimUint v n => v < 2 ^ 64 ∧ n < 2 ^ 64
   | .readLimUint n => n < 2 ^ 64
